@@ -136,6 +136,15 @@ func (f *fixture) proposed(id uint64, ready bool, err error, r *pbt.Rec) {
 
 func (f *fixture) freshID() uint64 { f.nextID++; return f.nextID }
 
+func sortedIDs(m map[uint64]bool) []uint64 {
+	var out []uint64
+	for id := range m {
+		out = append(out, id)
+	}
+	sort.Slice(out, func(i, j int) bool { return out[i] < out[j] })
+	return out
+}
+
 func toPB(m manifest.RegionMeta) *pb.RegionMeta {
 	out := &pb.RegionMeta{Id: m.ID, StartKey: m.StartKey, EndKey: m.EndKey,
 		EpochVersion: m.Epoch.Version, EpochConfVersion: m.Epoch.ConfVersion}
@@ -348,8 +357,24 @@ func (f *fixture) apply(s Step, live []region, r *pbt.Rec, st *stats) (stepInfo,
 		valid := key != "" && key > t.Start && (t.End == "" || key < t.End)
 		cid := f.freshID()
 		child := sim.SingleVoter(cid, []byte(key), []byte(t.End), manifest.RegionEpoch{Version: 1, ConfVersion: 1}, storeID, 100+cid)
-		if s.Child == "splitkey" {
+		switch s.Child {
+		case "splitkey":
 			child.StartKey = nil
+		case "nostore":
+			// the child's peer list does not name this store: its peer cannot be started here
+			child.Peers[0].StoreID = storeID + 7
+		case "peerdup":
+			// the child's peer id is the parent's: the router already hosts that peer, so the child
+			// cannot start.  Only while the parent's peer is really hosted - two regions sharing a
+			// peer id is not something the id allocator ever produces.
+			if f.n.RegionPeer(t.ID) != nil {
+				child.Peers[0].PeerID = 100 + t.ID
+			} else {
+				child.Peers[0].StoreID = storeID + 7
+			}
+		}
+		if s.Child == "nostore" || s.Child == "peerdup" {
+			r.Label("split:child-cannot-start(" + s.Child + ")")
 		}
 		info.desc = fmt.Sprintf("split %v at %q (child r%d, %s, valid=%v)", t, key, cid, s.Child, valid)
 		var e error
@@ -567,7 +592,7 @@ func genWith(t *rapid.T, db bool) Case {
 		case "split":
 			s.Key = rapid.SampledFrom([]string{"in", "in", "in", "in", "start", "end", "below", "above", "empty"}).Draw(t, "key")
 			s.Salt = rapid.IntRange(0, 63).Draw(t, "salt")
-			s.Child = rapid.SampledFrom([]string{"key", "key", "splitkey"}).Draw(t, "child")
+			s.Child = rapid.SampledFrom([]string{"key", "key", "key", "splitkey", "splitkey", "nostore", "peerdup"}).Draw(t, "child")
 		case "merge":
 			s.Rel = rapid.SampledFrom([]string{"right", "right", "right", "left", "left", "left", "far", "self", "missing", "notarget"}).Draw(t, "rel")
 			s.Far = rapid.IntRange(0, 4).Draw(t, "far")
@@ -583,7 +608,7 @@ func genWith(t *rapid.T, db bool) Case {
 
 func TestCheck(t *testing.T) {
 	s := &pbt.Suite{ID: "C24", Level: "exploration",
-		Rule: "A case = random partition into 1-5 regions (bounded/unbounded ends) on one real store.Store with a manifest-backed catalog, then 1-14 steps drawn from split (key inside / at start / at end / below / above / empty), merge (right or left adjacent neighbour, non-neighbour, self, unknown source, unknown target), peer stop, removal, store restart; admin commands applied with VerifApplyAdmin (direct) or ProposeSplit/ProposeMerge on the single-voter raft group (raft). Oracle after every step on the store's catalog: ranges pairwise disjoint; union of ranges equal to the union before (a removal shrinks it by exactly the removed range); a region whose range/epoch/peers changed has a strictly larger epoch; states only move forward (hooks and catalog); after restart RegionMetas and the manifest RegionSnapshot equal the pre-restart catalog, also after the peers were started again. Non-trivial = case with >=1 accepted valid split of a region with an unbounded side and >=1 accepted merge of an adjacent neighbour; distinct by case content. Merge relations listed in open known findings are not generated (counted as excluded).",
+		Rule: "A case = random partition into 1-5 regions (bounded/unbounded ends) on one real store.Store with a manifest-backed catalog, then 1-14 steps drawn from split (key inside / at start / at end / below / above / empty; child descriptor as callers build it, or one whose peer cannot be started on this store: foreign store id, peer id already hosted; region ids are always fresh, as the id allocator guarantees), merge (right or left adjacent neighbour, non-neighbour, self, unknown source, unknown target), peer stop, removal, store restart; admin commands applied with VerifApplyAdmin (direct) or ProposeSplit/ProposeMerge on the single-voter raft group (raft). Oracle after every step on the store's catalog: ranges pairwise disjoint; union of ranges equal to the union before (a removal shrinks it by exactly the removed range); a region whose range/epoch/peers changed has a strictly larger epoch; states only move forward (hooks and catalog); after restart RegionMetas and the manifest RegionSnapshot equal the pre-restart catalog, also after the peers were started again. Non-trivial = case with >=1 accepted valid split of a region with an unbounded side and >=1 accepted merge of an adjacent neighbour; distinct by case content. Merge relations listed in open known findings are not generated (counted as excluded).",
 		Assumptions: []string{
 			"live region = entry of the store's region catalog (states new/running/removing); a stopped peer's region (removing) still owns its range until RemoveRegion",
 			"a split's child is described as callers in the repository's tests do: child.EndKey = parent's end key, fresh region and peer ids",
